@@ -29,7 +29,7 @@ LEVEL_TEXT = ("Real end-to-end runs over generated frame layouts (spacing 1-5 st
 LEVEL_NOTE = "Tolerance 2e-5 relative (float32 fields accumulate u += dU over up to 5 steps). Trusts the harness's layout oracle and netCDF4."
 RULE = ("case = one layout (frame positions in steps, file partition, start, stop, direction, scalars, packing). Non-trivial: the run passes at least one frame step after the "
         "start (a hand-over happens); distinct by (positions, partition, start, stop, direction).")
-MANDATORY = ["files_rewritten_with_another_layout_after_a_run", "same_single_fraction_requested_every_step", "warm_start_probe_steps", "warm_start_reaches_last_frame", "files_with_different_time_references", "frame_passed_while_state_empty", "forward", "reversed", "spacing_equals_dt", "irregular_spacing", "one_frame_per_file", "file_entered_in_middle", "start_on_frame", "start_between_frames",
+MANDATORY = ["file_unavailable_at_the_moment_of_a_file_switch", "files_rewritten_with_another_layout_after_a_run", "same_single_fraction_requested_every_step", "warm_start_probe_steps", "warm_start_reaches_last_frame", "files_with_different_time_references", "frame_passed_while_state_empty", "forward", "reversed", "spacing_equals_dt", "irregular_spacing", "one_frame_per_file", "file_entered_in_middle", "start_on_frame", "start_between_frames",
              "scalar_fields", "packed", "handover_steps_observed", "probe_steps", "reads_checked", "first_read_straddles_files", "time_units_hours_or_days", "packed_per_file_parameters"]
 ASSUMPTIONS = ["frames on the model time grid, strictly increasing, covering [start, stop] (as the property quantifies)"]
 TIMEOUT = {"quick": 900, "thorough": 3000}
@@ -352,5 +352,47 @@ def run_case(case: dict[str, Any], wd: Path) -> dict[str, Any]:
                 got = float(snap["variables"][name][0])
                 if abs(got - vals[n_latest]) > 0.06:
                     V.append(C.viol(f"warm-started run, model time {snap['time']}: scalar {name} = {got}, the latest frame at or before that time (frame {n_latest}) holds {vals[n_latest]}", **desc))
+                    break
+    if len(files) > 1 and case["salt"] % 4 in (0, 2) and not V:
+        # fault at a file switch: the file that the look-ahead is about to open cannot be opened at that moment (moved away, and put back right after
+        # the attempt).  Whatever the run does then - it stops - no step may be carried out with another field than the fault-free run had.
+        inj = dict(done=False)
+        orig_rv = Forcing._read_velocity
+
+        def faulty_rv(self, time_step):
+            target = Path(str(self.file_idx[time_step]))
+            switch = (not getattr(self, "_first_read", True)) and str(getattr(self, "_open_file", target)) != str(target)
+            if switch and not inj["done"] and target.exists():
+                inj["done"] = True
+                away = target.with_name(target.name + ".away")
+                target.rename(away)
+                try:
+                    return orig_rv(self, time_step)
+                finally:
+                    away.rename(target)
+            return orig_rv(self, time_step)
+
+        rec.reset()
+        Forcing._read_velocity = faulty_rv
+        try:
+            res3, _c3, _w3 = run_scenario(dict(world=None, run=dict(run, output=dict(period=dt, filename="fault.nc"))), wd / "fault", world=world)
+        finally:
+            Forcing._read_velocity = orig_rv
+        log3 = list(rec.LOG)
+        rec.reset()
+        if inj["done"]:
+            sit["file_unavailable_at_the_moment_of_a_file_switch"] = 1
+            sit["run_stopped_by_the_unavailable_file"] = int(not res3.ok)
+            ref_by_step = {sn["step"]: sn for sn in log}
+            for sn in log3:
+                r0 = ref_by_step.get(sn["step"])
+                if r0 is None:
+                    continue
+                same = all(np.array_equal(sn["variables"][k], r0["variables"].get(k)) for k in sn["variables"]) and all(
+                    f_ in r0["vel"] and np.array_equal(sn["vel"][f_][0], r0["vel"][f_][0]) and np.array_equal(sn["vel"][f_][1], r0["vel"][f_][1]) for f_ in sn["vel"])
+                cnt["steps_compared_after_a_file_fault"] = cnt.get("steps_compared_after_a_file_fault", 0) + 1
+                if not same:
+                    V.append(C.viol(f"a forcing file could not be opened at the moment of a file switch; the run went on and step {sn['step']} ({sn['time']}) was carried out with "
+                                    f"u = {[float(np.ravel(v_[0])[0]) for v_ in sn['vel'].values()][:3]}, the fault-free run had {[float(np.ravel(v_[0])[0]) for v_ in r0['vel'].values()][:3]}", **desc))
                     break
     return C.result(V[:3], sit, cnt, nontrivial=len(handovers) > 0, key=key, sample=sample)
